@@ -883,7 +883,7 @@ func ruleC07Routes(c *Checker) {
 			}
 			// (5) the opaque form (scheme:rest) is refused: net/url keeps everything after the colon in
 			// Opaque, so User/Host/Path are empty and none of the rules above see what is in it
-			opaqueEmpty := func(f *ssa.Function) []Edge {
+			opaqueEmpty := func(f *ssa.Function, uval ssa.Value) []Edge {
 				tE, fE := condEdges(f, func(v ssa.Value) bool {
 					bo, ok := v.(*ssa.BinOp)
 					if !ok || (bo.Op != token.NEQ && bo.Op != token.EQL) {
@@ -897,7 +897,7 @@ func ruleC07Routes(c *Checker) {
 						return false
 					}
 					fa, ok := ld.X.(*ssa.FieldAddr)
-					return ok && isURLField(fa) && fieldOf(fa).Name() == "Opaque"
+					return ok && isURLField(fa) && fieldOf(fa).Name() == "Opaque" && (uval == nil || canon(fa.X) == canon(uval))
 				})
 				var out []Edge
 				for _, e := range tE { // cond true: NEQ → non-empty, EQL → empty
@@ -918,16 +918,19 @@ func ruleC07Routes(c *Checker) {
 				}
 				return out
 			}
-			okOpaque := guarded(st.Block(), opaqueEmpty(fn))
-			if !okOpaque && len(p.callersOf(fn)) > 0 {
+			// ... asked of the URL that is kept (the one the per-type rules saw and the package stores): a URL put
+			// together by hand without a host has an empty Opaque and still prints in the opaque form, so that the
+			// copy read back from its printed form — the one that is kept — has it set
+			okOpaque := guarded(st.Block(), opaqueEmpty(fn, u))
+			if !okOpaque && len(opaqueEmpty(fn, nil)) == 0 && len(p.callersOf(fn)) > 0 {
 				okOpaque = true
 				for _, cs := range p.callersOf(fn) {
-					if !guarded(cs.Block(), opaqueEmpty(cs.Parent())) {
+					if !guarded(cs.Block(), opaqueEmpty(cs.Parent(), nil)) {
 						okOpaque = false
 					}
 				}
 			}
-			c.check(okOpaque, R, name, "opaque URL form refused", pos, "constructed only past a test that u.Opaque is empty", "a URL in the opaque form (https:user:secret@host/repo.git, or Opaque set by hand) reaches the constructor: its credentials, host and path are invisible to every rule applied here and are printed back as they are")
+			c.check(okOpaque, R, name, "opaque URL form refused", pos, "constructed only past a test that the kept URL's Opaque is empty", "a URL in the opaque form (https:user:secret@host/repo.git, or Opaque set by hand) reaches the constructor: its credentials, host and path are invisible to every rule applied here and are printed back as they are")
 		}
 	}
 	// query syntax gate on every route: PrepareURL reads the query through URL.Query(), which
